@@ -35,7 +35,8 @@ def run(ctx):
         return {"retention": 0, "remediation": "disabled",
                 "fkpolicy": rng.choice(["disabled", "on_remove_event"])}
     cases_a = cliprops.gen_cases(ctx, n_a, copts, lambda rng: {"p_fail": rng.choice([0.0, 0.3]), "p_partial": 0.1,
-                                                             "clock": False, "p_restart": 1.0, "extra_iters": 6})
+                                                             "clock": False, "p_restart": 1.0, "extra_iters": 6,
+                                                             "p_stop_mid": 0.4})
     res_a, failing_a = cliprops.run_and_eval(ctx, cases_a, "c07_case", "c11a")
     sub = cliprops.sub_oracles(ctx, res_a, failing_a, ["c07_fifo_case", "c07_complete_case", "c07_healed_case"], "c11asub")
     violations, corr = [], []
@@ -86,6 +87,8 @@ def run(ctx):
         elif j in failing_b:
             corr.append({"what": f"corr_kill: checkpoint mixture model != GenericClient killed after op {p['k']} ({p['op']}) on case {i}", **rep})
     histo_a, distinct = cliprops.stats(cases_a, res_a)
+    histo_a["stops_requested_in_the_middle_of_a_batch"] = sum(1 for (ob, g, e) in res_a for it in ob["sessions"]["iters"]
+                                                               if it.get("stop_after") and it.get("limit") is not None)
     return {"evaluations": len(cases_a) + len(gal), "distinct_nontrivial": distinct + len(set(gal)),
             "rule": "(a) real-server buses consumed by the real client with a graceful stop and a new process life at every loop "
                     "boundary, handler failures, trashbin: correspondence + per-object FIFO / healed oracles (no call twice, final state "
